@@ -1,5 +1,56 @@
 package main
 
+import (
+	"fmt"
+	"path/filepath"
+	"sync"
+	"time"
+)
+
+// allocCheck runs the alloc engine (C20: zero-allocation calls, footprint plateau,
+// heap plateau) in worker processes built from the pool-seam-only copy.
 func allocCheck(dir string, seed uint64, tier string) (map[string]any, []failure, error) {
-	return nil, nil, nil
+	total, wall := 1600, 90*time.Second
+	if tier == "thorough" {
+		total, wall = 40000, 25*time.Minute
+	}
+	nsh := 16
+	per := (total + nsh - 1) / nsh
+	results := make([]shardResult, nsh)
+	var wg sync.WaitGroup
+	for k := 0; k < nsh; k++ {
+		wg.Add(1)
+		go func(k int) {
+			defer wg.Done()
+			spec := propSpec{engine: "alloc"}
+			results[k] = runShardBin(filepath.Join(dir, "bin", "worker-ny"), dir, spec, "C20", seed, k*per, (k+1)*per, tier, wall, 200+k)
+		}(k)
+	}
+	wg.Wait()
+	var fails []failure
+	runs, zero, cycles := 0, 0, 0
+	var samples []any
+	for k, r := range results {
+		if r.err != nil {
+			return nil, nil, fmt.Errorf("alloc shard %d: %v", k, r.err)
+		}
+		fails = append(fails, r.fails...)
+		if v, ok := r.summary["runs"].(float64); ok {
+			runs += int(v)
+		}
+		if ex, ok := r.summary["extra"].(map[string]any); ok {
+			if v, ok := ex["zero_alloc_measurements"].(float64); ok {
+				zero += int(v)
+			}
+			if v, ok := ex["plateau_cycles"].(float64); ok {
+				cycles += int(v)
+			}
+		}
+		if l, ok := r.summary["samples"].([]any); ok && len(samples) < 2 {
+			samples = append(samples, l...)
+		}
+	}
+	ev := map[string]any{"alloc_engine_runs": runs, "zero_alloc_measurements": zero, "plateau_cycles_executed": cycles, "alloc_engine_samples": samples,
+		"alloc_engine_note": "I5 (zero allocation after warm-up, fault-free pool, default cache capacity), I3 (recycled-state footprint plateau) and I4 (heap plateau, threshold +4 MB and x2) measured in a build with the pool seam only (no yield calls)"}
+	return ev, fails, nil
 }
